@@ -256,15 +256,217 @@ theorem release_nameplate_eq (ctx : Ctx) (name side : String) (t : Time) (s : Sy
         Nameplate.toRow, NpSide.toRow, Sql.Row.get, SV.ofCell]
       exact release_tail_eq (name := name) _ np _ _ _ _ r rfl (by simp [lookup_setVar_ne, lookup_setVar_eq]) hf hs
 
+/-! ### Mailbox.close -/
+
+def moodSV : Option String → SV
+  | none => .none
+  | some m => .str m
+
+@[simp] theorem mbSideRows_map (l : List MbSide) : mbSideRows (l.map RowV.mbs) = l := by
+  induction l with
+  | nil => rfl
+  | cons a as ih => simpa [mbSideRows, List.filterMap] using ih
+
+theorem opened_field (r : MbSide) : truthy (rowField (.mbs r) "opened") = r.opened := by
+  simp [rowField, RowV.toRow, MbSide.toRow, Sql.Row.get, List.lookup, SV.ofCell, truthy]
+
+theorem opened_any (l : List MbSide) :
+    (l.map RowV.mbs).any (fun r => truthy (rowField r "opened")) = l.any (·.opened) := by
+  induction l with
+  | nil => rfl
+  | cons a as ih => simp only [List.map, List.any, opened_field, ih]
+
+/-- the body of the loop over the nameplates that die with the mailbox -/
+def npLoopBody : List XS :=
+  [.exec (some "np_side_rows") .all "Mailbox_close__select_nameplate_sides_0" [.field (.var "np_row") "id"],
+   .call none "AppNamespace._summarize_nameplate_and_store" none [.var "np_side_rows", .param "when", .false_]]
+
+abbrev loopStep (c : Callee) (ctx : Ctx) (body : List XS) (v : String) : Res → RowV → Res :=
+  loopStepWith (execL c ctx body) v
+
+theorem foldl_exc (c : Callee) (ctx : Ctx) (body : List XS) (v : String) (l : List RowV) (s : Sys) (cls : String) :
+    l.foldl (loopStep c ctx body v) (.exc s cls) = .exc s cls := by
+  induction l with
+  | nil => rfl
+  | cons a as ih => simpa [List.foldl, loopStep, loopStepWith] using ih
+
+theorem np_loop_eq (ctx : Ctx) (t : Time) (hw : ctx.params.lookup "when" = some (.int t)) (l : List Nameplate) :
+    ∀ (s : Sys) (env : Env),
+      (∃ env', (l.map RowV.np).foldl (loopStep callee0 ctx npLoopBody "np_row") (.normal ⟨s, env⟩)
+          = .normal ⟨(s.storeNameplatesOfMailbox ctx.app t l).1, env'⟩ ∧
+        (s.storeNameplatesOfMailbox ctx.app t l).2 = true ∧
+        ∀ w, w ≠ "np_row" → w ≠ "np_side_rows" → env'.lookup w = env.lookup w) ∨
+      ((l.map RowV.np).foldl (loopStep callee0 ctx npLoopBody "np_row") (.normal ⟨s, env⟩)
+          = .exc (s.storeNameplatesOfMailbox ctx.app t l).1 "IndexError" ∧
+        (s.storeNameplatesOfMailbox ctx.app t l).2 = false) := by
+  induction l with
+  | nil => intro s env; exact .inl ⟨env, rfl, rfl, fun _ _ _ => rfl⟩
+  | cons np rest ih =>
+    intro s env
+    simp only [List.map, List.foldl, Sys.storeNameplatesOfMailbox]
+    rcases ho : s.storeNameplateUsage ctx.app (s.db.npSidesOf np.id) t false with ⟨s1, ok⟩
+    cases ok with
+    | false =>
+      refine .inr ⟨?_, rfl⟩
+      have hstep : loopStep callee0 ctx npLoopBody "np_row" (.normal ⟨s, env⟩) (.np np) = .exc s1 "IndexError" := by
+        simp [loopStep, loopStepWith, npLoopBody, execL, execS, eval, stmtSem, bindInto, fetched, List.lookup,
+          lookup_setVar_ne, lookup_setVar_eq, rowField, RowV.toRow, Nameplate.toRow, Sql.Row.get, SV.ofCell, callee0,
+          calleeCtx, hw, ho]
+      rw [hstep]
+      exact foldl_exc _ _ _ _ _ _ _
+    | true =>
+      have hstep : loopStep callee0 ctx npLoopBody "np_row" (.normal ⟨s, env⟩) (.np np)
+          = .normal ⟨s1, setVar (setVar env "np_row" (.row (.np np))) "np_side_rows"
+              (.rows ((s.db.npSidesOf np.id).map .nps))⟩ := by
+        simp [loopStep, loopStepWith, npLoopBody, execL, execS, eval, stmtSem, bindInto, fetched, List.lookup, lookup_setVar_ne,
+          lookup_setVar_eq, rowField, RowV.toRow, Nameplate.toRow, Sql.Row.get, SV.ofCell, callee0, calleeCtx, hw, ho]
+      rw [hstep]
+      rcases ih s1 _ with ⟨env', h1, h2, h3⟩ | ⟨h1, h2⟩
+      · refine .inl ⟨env', h1, h2, fun w hw1 hw2 => ?_⟩
+        rw [h3 w hw1 hw2, lookup_setVar_ne _ _ _ _ hw2, lookup_setVar_ne _ _ _ _ hw1]
+      · exact .inr ⟨h1, h2⟩
+
+@[simp] theorem truthy_bool (b : Bool) : truthy (.bool b) = b := rfl
+
+@[simp] theorem res_match_id (r : Res) : (match r with | .normal st' => Res.normal st' | r => r) = r := by
+  cases r <;> rfl
+
+theorem execL_append (c : Callee) (ctx : Ctx) (a b : List XS) (st : St) :
+    execL c ctx (a ++ b) st = (match execL c ctx a st with
+      | .normal st' => execL c ctx b st'
+      | r => r) := by
+  induction a generalizing st with
+  | nil => simp [execL]
+  | cons x rest ih =>
+    simp only [List.cons_append, execL]
+    cases execS c ctx x st <;> simp [ih]
+
+/-- the statements of `Mailbox.close` after the two early returns -/
+def closeTailBody : List XS := Mailbox_close.body.drop 5
+def closeA : List XS := closeTailBody.take 4
+def closeB : XS := .if_ (.selfAttr "_usage_db")
+    [.forExec "np_row" "Mailbox_close__select_nameplates_0" [.selfAttr "_app_id", .selfAttr "_mailbox_id"] npLoopBody] []
+def closeCD : List XS := closeTailBody.drop 5
+
+theorem closeTailBody_split : closeTailBody = closeA ++ ([closeB] ++ closeCD) := by rfl
+
+/-- stage A: mark the side closed, commit, read the side rows, return if one is still open -/
+theorem closeA_eq (ctx : Ctx) (side : String) (mood : Option String) (t : Time) (s : Sys) (env : Env)
+    (hp : ctx.params = [("side", .str side), ("mood", moodSV mood), ("when", .int t)]) :
+    execL callee0 ctx closeA ⟨s, env⟩ =
+      (let s1 := (s.modDb (·.closeSide ctx.mailbox side mood)).commit
+       if (s1.db.mbSidesOf ctx.mailbox).any (·.opened) then .ret s1 .none
+       else .normal ⟨s1, setVar env "side_rows" (.rows ((s1.db.mbSidesOf ctx.mailbox).map .mbs))⟩) := by
+  cases mood <;>
+  simp [closeA, closeTailBody, Mailbox_close, execL, execS, eval, stmtSem, bindInto, fetched, List.lookup, hp, moodSV,
+    lookup_setVar_ne, lookup_setVar_eq, opened_field, truthy_bool] <;>
+  (split <;> first | rfl | (rename_i h; exact h.symm))
+
+/-- stage B: the usage records of the nameplates that die with the mailbox -/
+theorem closeB_eq (ctx : Ctx) (t : Time) (hw : ctx.params.lookup "when" = some (.int t)) (s : Sys) (env : Env) :
+    (∃ env', execS callee0 ctx closeB ⟨s, env⟩ = .normal ⟨(if s.cfg.usage then
+          (s.storeNameplatesOfMailbox ctx.app t (s.db.nameplatesOfMailbox ctx.app ctx.mailbox)) else (s, true)).1, env'⟩ ∧
+        (if s.cfg.usage then (s.storeNameplatesOfMailbox ctx.app t (s.db.nameplatesOfMailbox ctx.app ctx.mailbox))
+          else (s, true)).2 = true ∧
+        ∀ w, w ≠ "np_row" → w ≠ "np_side_rows" → env'.lookup w = env.lookup w) ∨
+    (execS callee0 ctx closeB ⟨s, env⟩ = .exc (if s.cfg.usage then
+          (s.storeNameplatesOfMailbox ctx.app t (s.db.nameplatesOfMailbox ctx.app ctx.mailbox)) else (s, true)).1 "IndexError" ∧
+        (if s.cfg.usage then (s.storeNameplatesOfMailbox ctx.app t (s.db.nameplatesOfMailbox ctx.app ctx.mailbox))
+          else (s, true)).2 = false) := by
+  cases hu : s.cfg.usage
+  · exact .inl ⟨env, by simp [closeB, execS, execL, eval, truthy, hu], rfl, fun _ _ _ => rfl⟩
+  · have hl := np_loop_eq ctx t hw (s.db.nameplatesOfMailbox ctx.app ctx.mailbox) s env
+    simp only [if_true]
+    have he : execS callee0 ctx closeB ⟨s, env⟩ =
+        ((s.db.nameplatesOfMailbox ctx.app ctx.mailbox).map RowV.np).foldl (loopStep callee0 ctx npLoopBody "np_row")
+          (.normal ⟨s, env⟩) := by
+      have hid : ∀ r : Res, (match r with | .normal st' => Res.normal st' | r => r) = r := fun r => by cases r <;> rfl
+      simp [closeB, execS, execL, eval, truthy, hu, stmtSem, npLoopBody, loopStep]
+      exact hid _
+    rw [he]
+    exact hl
+
+/-- stages C and D: delete the rows, record the mailbox's usage, commit, stop the listeners -/
+theorem closeCD_eq (ctx : Ctx) (t : Time) (hw : ctx.params.lookup "when" = some (.int t)) (s2 : Sys) (env : Env)
+    (forNp : Bool) (sideRows : List MbSide)
+    (h1 : env.lookup "for_nameplate" = some (.bool forNp))
+    (h2 : env.lookup "side_rows" = some (.rows (sideRows.map .mbs))) :
+    finish (execL callee0 ctx closeCD ⟨s2, env⟩) =
+      .ok (let s3 := s2.modDb (fun d =>
+            ((((d.delNpSidesOfMailbox ctx.app ctx.mailbox).delNameplatesOfMailbox ctx.app ctx.mailbox).delMessagesOf
+              ctx.mailbox).delMbSidesOf ctx.mailbox).delMailbox ctx.mailbox)
+           let s4 := if s3.cfg.usage then (s3.storeMailboxUsage ctx.app forNp sideRows t false).ucommit else s3
+           (s4.commit).stopListeners ctx.app ctx.mailbox) .none := by
+  have hcfg : ∀ f, (s2.modDb f).cfg = s2.cfg := fun _ => rfl
+  cases hu : s2.cfg.usage <;>
+  simp [closeCD, closeTailBody, Mailbox_close, execL, execS, eval, stmtSem, bindInto, fetched, List.lookup, hw, h1, h2,
+    callee0, calleeCtx, truthy_bool, hu, hcfg, finish, Sys.modDb]
+
+theorem close_tail_eq (ctx : Ctx) (side : String) (mood : Option String) (t : Time) (s : Sys) (env : Env)
+    (row : MailboxRow) (r : MbSide)
+    (hp : ctx.params = [("side", .str side), ("mood", moodSV mood), ("when", .int t)])
+    (h1 : env.lookup "for_nameplate" = some (.bool row.forNp))
+    (hf : s.db.findMailbox ctx.app ctx.mailbox = some row) (hs : s.db.findMbSide ctx.mailbox side = some r) :
+    finish (execL callee0 ctx closeTailBody ⟨s, env⟩) = ofRelease (s.mailboxClose ctx.app ctx.mailbox side mood t) := by
+  have hw : ctx.params.lookup "when" = some (.int t) := by simp [hp, List.lookup]
+  rw [closeTailBody_split, execL_append, closeA_eq ctx side mood t s env hp]
+  simp only [Sys.mailboxClose, hf, hs]
+  generalize (s.modDb fun x => x.closeSide ctx.mailbox side mood).commit = s1
+  by_cases hany : (s1.db.mbSidesOf ctx.mailbox).any (·.opened) = true
+  · simp [hany, finish, ofRelease]
+  · simp only [hany, if_false, Bool.false_eq_true]
+    rw [execL_append]
+    simp only [execL]
+    rcases closeB_eq ctx t hw s1 (setVar env "side_rows" (.rows ((s1.db.mbSidesOf ctx.mailbox).map .mbs)))
+      with ⟨env', hB, hok, henv⟩ | ⟨hB, hok⟩
+    · rw [hB]
+      simp only []
+      rw [closeCD_eq ctx t hw _ env' row.forNp (s1.db.mbSidesOf ctx.mailbox)
+        (by rw [henv _ (by decide) (by decide), lookup_setVar_ne _ _ _ _ (by decide)]; exact h1)
+        (by rw [henv _ (by decide) (by decide), lookup_setVar_eq])]
+      generalize (if s1.cfg.usage = true then _ else (s1, true) : Sys × Bool) = o at hok ⊢
+      obtain ⟨s2, ok⟩ := o
+      simp at hok
+      subst hok
+      simp [ofRelease]
+    · rw [hB]
+      generalize (if s1.cfg.usage = true then _ else (s1, true) : Sys × Bool) = o at hok ⊢
+      obtain ⟨s2, ok⟩ := o
+      simp at hok
+      subst hok
+      simp [finish, ofRelease]
+
+/-- `Mailbox.close(side, mood, when)` IS `Sys.mailboxClose` -/
+theorem mailbox_close_eq (ctx : Ctx) (side : String) (mood : Option String) (t : Time) (s : Sys) :
+    runMethod callee0 Mailbox_close ctx [.str side, moodSV mood, .int t] s
+      = ofRelease (s.mailboxClose ctx.app ctx.mailbox side mood t) := by
+  unfold runMethod
+  have hb : Mailbox_close.body = Mailbox_close.body.take 5 ++ closeTailBody := (List.take_append_drop 5 _).symm
+  rw [hb]
+  cases hf : s.db.findMailbox ctx.app ctx.mailbox with
+  | none =>
+    simp [Mailbox_close, execL, execS, eval, stmtSem, bindInto, fetched, List.lookup, truthy, optRow, hf,
+      Sys.mailboxClose, ofRelease, finish, lookup_setVar_ne, lookup_setVar_eq]
+  | some row =>
+    cases hs : s.db.findMbSide ctx.mailbox side with
+    | none =>
+      simp [Mailbox_close, execL, execS, eval, stmtSem, bindInto, fetched, List.lookup, truthy, optRow, hf, hs,
+        Sys.mailboxClose, ofRelease, finish, lookup_setVar_ne, lookup_setVar_eq, RowV.toRow, MailboxRow.toRow]
+    | some r =>
+      simp [Mailbox_close, execL, execS, eval, stmtSem, bindInto, fetched, List.lookup, truthy, optRow, hf, hs,
+        lookup_setVar_ne, lookup_setVar_eq, rowField, RowV.toRow, MailboxRow.toRow, MbSide.toRow, Sql.Row.get, SV.ofCell]
+      exact close_tail_eq _ side mood t s _ row r rfl (by simp [lookup_setVar_ne, lookup_setVar_eq]) hf hs
+
 /-! ### coverage -/
 
 /-- the seven methods are there, under these names -/
 theorem translated_methods : GenSrv.table.map (·.1) =
-    ["Mailbox.open", "Mailbox._touch", "Mailbox._add_message", "AppNamespace._add_mailbox", "AppNamespace.open_mailbox",
+    ["Mailbox.open", "Mailbox._touch", "Mailbox._add_message", "Mailbox.close", "AppNamespace._add_mailbox", "AppNamespace.open_mailbox",
      "AppNamespace.claim_nameplate", "AppNamespace.release_nameplate"] := by rfl
 
 /-- what the translated bodies call: translated methods, or the one primitive of `callee0` -/
 theorem calls_resolved : (GenSrv.table.flatMap (fun m => XS.callsL m.2.body)).all
-    (fun c => c ∈ GenSrv.table.map (·.1) ∨ c = "AppNamespace._summarize_nameplate_and_store") = true := by decide
+    (fun c => c ∈ GenSrv.table.map (·.1) ∨ c = "AppNamespace._summarize_nameplate_and_store"
+      ∨ c = "AppNamespace._summarize_mailbox_and_store") = true := by decide
 
 end Wormhole.PySrv
